@@ -80,15 +80,20 @@ pub struct PipePlan {
     /// run a clone() of the configured pipeline (the original is dropped unused)
     #[serde(default)]
     pub via_clone: bool,
+    /// this stage, once done with its work, closes its three standard streams and stays around for
+    /// an hour (a daemonizing command): end-of-file must not wait for it (C08's consequence)
+    #[serde(default)]
+    pub linger: Option<usize>,
 }
 
 impl Default for PipePlan {
     fn default() -> Self {
-        PipePlan { stages: vec![], shape: Shape::Chain, stdin: PStdin::Inherit, stdout: PStdout::Inherit, stderr_file: false, term: Term::Join, input_len: 0, missing_stage: None, source_len: 0, early: false, via_clone: false }
+        PipePlan { stages: vec![], shape: Shape::Chain, stdin: PStdin::Inherit, stdout: PStdout::Inherit, stderr_file: false, term: Term::Join, input_len: 0, missing_stage: None, source_len: 0, early: false, via_clone: false, linger: None }
     }
 }
 
 const SRC_STREAM: u32 = 40;
+const LINGER_NS: u64 = 3_600_000_000_000;
 
 pub fn generate(prop: &str, rng: &mut Rng, plan: &mut Plan, _index: u64) {
     let cap = plan.knobs.pipe_caps[0];
@@ -115,6 +120,9 @@ pub fn generate(prop: &str, rng: &mut Rng, plan: &mut Plan, _index: u64) {
     let small = rng.chance(3, 4);
     pp.input_len = if has_input { gen_len(rng, cap, !small).min(if small { 200_000 } else { 2 << 20 }) } else { 0 };
     pp.source_len = if has_input { 0 } else { gen_len(rng, cap, !small).min(if small { 200_000 } else { 2 << 20 }) };
+    if pp.term == Term::Communicate && prop != "C14" && rng.chance(1, 3) {
+        pp.linger = Some(rng.below(n as u64) as usize);
+    }
     let chunk0 = gen_chunk(rng, cap).max(if pp.input_len + pp.source_len > 100_000 { 512 } else { 16 });
     for i in 0..n {
         let tag = (i as u8).wrapping_mul(37).wrapping_add(11);
@@ -131,6 +139,12 @@ pub fn generate(prop: &str, rng: &mut Rng, plan: &mut Plan, _index: u64) {
         }
         if rng.chance(1, 4) {
             ops.push(Op::Sleep { ns: rng.range(0, 500_000_000) });
+        }
+        if pp.linger == Some(i) {
+            for fd in 0..3 {
+                ops.push(Op::Close { fd });
+            }
+            ops.push(Op::Sleep { ns: LINGER_NS });
         }
         ops.push(Op::Exit { code });
         let name = format!("st{}", i);
@@ -334,10 +348,18 @@ pub fn run(plan: &Plan, pp: &PipePlan) -> FamOut {
         Term::Communicate => match lib("Pipeline::communicate", || p.communicate()) {
             Err(pm) => violate("panic", "panic/in=Pipeline::communicate".into(), pm),
             Ok(Ok(mut comm)) => {
+                let t0 = sim().k.now;
                 match lib("Communicator::read", || comm.read()) {
                     Ok(Ok((o, e))) => {
                         got_out = o;
                         got_err = e;
+                        if let Some(i) = pp.linger {
+                            sim().k.probe("lingering_stage_run");
+                            if sim().k.now - t0 >= LINGER_NS / 2 {
+                                let holders: Vec<(i32, Vec<i32>)> = sim().k.procs.values().filter(|c| c.pid != PARENT_PID).map(|c| (c.pid, c.exec_fds.keys().cloned().filter(|fd| *fd > 2).collect::<Vec<i32>>())).filter(|(_, v)| !v.is_empty()).collect();
+                                violate("eof_waits_for_lingering", "eof_waits_for_lingering/term=communicate".into(), format!("stage {} closed its standard streams after its work and stayed around for an hour; read() returned only after {} s (descriptors above 2 held by the commands at exec time: {:?})", i, (sim().k.now - t0) / 1_000_000_000, holders));
+                            }
+                        }
                     }
                     Ok(Err(ce)) => failed = Some(PopenError::IoError(ce.error)),
                     Err(pm) => violate("panic", "panic/in=Communicator::read".into(), pm),
@@ -584,6 +606,7 @@ pub fn run(plan: &Plan, pp: &PipePlan) -> FamOut {
         }
     }
     crate::fam_spawn::judge_leaks();
+    crate::fam_spawn::judge_release_on_std_close();
     kill_all_children();
     FamOut { nontrivial }
 }
